@@ -5,7 +5,7 @@ from gsa.cfg import Fn, S, is_call, walk, lit
 from gsa import rules as R
 from .common import executor_instances, FE, wl_name, split_targs
 
-EXPL = ("BulkSynchronous (every instantiation) and OrderedByIntegerMetric with the barrier option (every instantiation in "
+EXPL = ("Assumes that the system barrier is a barrier (decided separately as C05: a fault inside TopoBarrier is reported there, see seeded/C08-2). BulkSynchronous (every instantiation) and OrderedByIntegerMetric with the barrier option (every instantiation in "
         "the driver matrix), every CFG path incl. loop back edges: push goes to the queue of round+1 and pop reads the queue "
         "of round (index expressions differ by exactly the parity flip); after a failing pop two barrier waits separate the "
         "rounds, the round flip and thread 0's update of the shared flags lie strictly between them, every write of `some` "
